@@ -13,7 +13,13 @@ REVERTS = {"revert_fix_receive_until_offset": ["C16"], "revert_fix_from_thread_r
            "revert_fix_start_exception": ["C02", "C07"],
            "revert_fix_spawn_into_cancelled": ["C03", "C02"],
            "revert_fix_empty_group_checkpoint": ["C01"], "revert_fix_text_bom": ["C16"]}
-ALSO = {"C13-2": ["C13", "C12"], "C12-w2-2": ["C12", "C13"], "C03-w3-1": ["C03", "C06"], "C03-w3-2": ["C03", "C14"], "C02-w3-2": ["C02", "C03"], "C02-1": ["C02", "C03"]}
+ALSO = {"C14-w3-1": ["C14", "C10"], "C02-w3-1": ["C02", "C04"], "C04-w2-3": ["C04", "C14"], "C05-w3-1": ["C05", "C04"], "C13-2": ["C13", "C12"], "C12-w2-2": ["C12", "C13"], "C03-w3-1": ["C03", "C06"], "C03-w3-2": ["C03", "C14"], "C02-w3-2": ["C02", "C03"], "C02-1": ["C02", "C03"]}
+
+
+# changes that no longer break their property on the current tree (see DESIGN.md section 12)
+NEUTRALISED = {"C01-w3-1": "fix F9 catches the cancellation it relied on"}
+# changes outside the explored space, listed as limits in DESIGN.md section 13
+KNOWN_LIMITS = {"C15-w3-1": "needs two event loops at a time"}
 
 
 def targets():
@@ -59,20 +65,48 @@ def run_one(name, patch, ids):
 
 
 def main():
-    sel = sys.argv[1:]
+    """usage: sweep.py [--shard k/n] [name-substring ...]; shards write sweep_report.<k>.json,
+    `sweep.py --merge` combines them into sweep_report.json"""
+    args = sys.argv[1:]
+    if args and args[0] == "--merge":
+        report = []
+        for p in sorted(glob.glob(os.path.join(ROOT, "selftest", "sweep_report.*.json"))):
+            report.extend(json.load(open(p)))
+        report.sort(key=lambda r: r["name"])
+        with open(os.path.join(ROOT, "selftest", "sweep_report.json"), "w") as f:
+            json.dump(report, f, indent=1)
+        missed = [r["name"] for r in report if r["applies"] and not r["detected_by"]]
+        print(f"changes={len(report)} detected={sum(1 for r in report if r['detected_by'])} "
+              f"not_applicable={[r['name'] for r in report if not r['applies']]} missed={missed}")
+        sys.exit(1 if missed else 0)
+    shard = None
+    if args and args[0] == "--shard":
+        k, n = args[1].split("/")
+        shard = (int(k), int(n))
+        args = args[2:]
+    sel = args
     report = []
-    for name, patch, ids in targets():
-        if sel and not any(s in name for s in sel):
-            continue
-        if not ids:
-            continue
-        r = run_one(name, patch, ids)
+    todo = [t for t in targets() if t[2] and (not sel or any(s in t[0] for s in sel))]
+    if shard:
+        todo = [t for i, t in enumerate(todo) if i % shard[1] == shard[0]]
+    for name, patch, ids in todo:
+        pp = os.path.join(os.path.dirname(patch), "patch_ported.diff")
+        if os.path.exists(pp):
+            patch = pp
+        if name in NEUTRALISED:
+            r = {"name": name, "applies": False, "detected_by": [], "checked": ids,
+                 "note": "no longer breaks the property: " + NEUTRALISED[name]}
+        else:
+            r = run_one(name, patch, ids)
+        if name in KNOWN_LIMITS and not r["detected_by"]:
+            r["note"] = "known limit: " + KNOWN_LIMITS[name]
         status = ("n/a (does not apply)" if not r["applies"] else
                   ("DETECTED by " + ",".join(r["detected_by"])) if r["detected_by"] else "MISSED")
         print(f"{name:55s} {status} {' '.join(r.get('errors', []))[:200]}", flush=True)
         report.append(r)
     if not sel:
-        with open(os.path.join(ROOT, "selftest", "sweep_report.json"), "w") as f:
+        out = "sweep_report.json" if not shard else f"sweep_report.{shard[0]}.json"
+        with open(os.path.join(ROOT, "selftest", out), "w") as f:
             json.dump(report, f, indent=1)
     missed = [r["name"] for r in report if r["applies"] and not r["detected_by"]]
     print(f"changes={len(report)} detected={sum(1 for r in report if r['detected_by'])} "
